@@ -45,9 +45,9 @@ def store_fn(m):
 
 def increment_fn(m):
     r = [b for b in m.prog.user_bodies() if b.kind == 'method' and b.argc == 3 and b.locals[0] == 'nundb::bo::Response'
-         and b.locals[1] == '&nundb::bo::Database' and core.is_str_ty(b.locals[2]) and b.locals[3] == 'i32']
+         and b.locals[1] == '&nundb::bo::Database' and core.is_str_ty(b.locals[2]) and b.locals[3] in ('i8', 'i16', 'i32', 'i64', 'i128', 'isize')]
     if len(r) != 1:
-        raise core.AnchorError('increment function (&Database, String, i32) -> Response: found %d' % len(r))
+        raise core.AnchorError('increment function (&Database, string, integer) -> Response: found %d' % len(r))
     return r[0]
 
 
